@@ -35,6 +35,7 @@ Inductive site :=
 | SMech          (* the mechanism factory / a collaborator panicked (oracle) *)
 | SExtractEmpty  (* errors[0] in CompositeExtractStrategy.GetAuthData *)
 | SNilBlock      (* block.Type on the nil result of pem.Decode in pemx.ReadPEM *)
+| SScopes        (* v.(string) / name.(string) / values.([]any) / k.(string) in oauth2.DecodeScopesMatcherHookFunc *)
 | SDecode        (* mapstructure (ErrorUnused) on a YAML mapping with a non-string key, under config.DecodeConfig *)
 | SOther.
 
@@ -42,7 +43,8 @@ Definition site_eqb (a b : site) : bool :=
   match a, b with
   | SEntries0, SEntries0 | SKeySize, SKeySize | SSigKeySize, SSigKeySize | SIdAssert, SIdAssert
   | SGetConfig, SGetConfig | SStatNil, SStatNil | SChainLoop, SChainLoop | SMech, SMech
-  | SExtractEmpty, SExtractEmpty | SNilBlock, SNilBlock | SDecode, SDecode | SOther, SOther => true
+  | SExtractEmpty, SExtractEmpty | SNilBlock, SNilBlock | SDecode, SDecode | SScopes, SScopes
+  | SOther, SOther => true
   | _, _ => false
   end.
 
@@ -63,10 +65,11 @@ Record fixes := {
   fx6 : bool;   (* C19-F6: buildChain never re-uses a certificate already in the chain *)
   fx7 : bool;   (* C19-F7: pemx.ReadPEM stops at a nil block *)
   fx8 : bool;   (* C19-F8: parseYAML rejects mappings with non-string keys *)
+  fx9 : bool;   (* C19-F9: checked assertions in the scopes-matcher decode hook *)
   fx18 : bool }. (* C18-F2 (not a C19 finding): every fsnotify event re-examines the file *)
 
-Definition no_fixes := {| fx1 := false; fx2 := false; fx3 := false; fx4 := false; fx5 := false; fx6 := false; fx7 := false; fx8 := false; fx18 := false |}.
-Definition all_fixes := {| fx1 := true; fx2 := true; fx3 := true; fx4 := true; fx5 := true; fx6 := true; fx7 := true; fx8 := true; fx18 := true |}.
+Definition no_fixes := {| fx1 := false; fx2 := false; fx3 := false; fx4 := false; fx5 := false; fx6 := false; fx7 := false; fx8 := false; fx9 := false; fx18 := false |}.
+Definition all_fixes := {| fx1 := true; fx2 := true; fx3 := true; fx4 := true; fx5 := true; fx6 := true; fx7 := true; fx8 := true; fx9 := true; fx18 := true |}.
 
 (** * Key store *)
 
@@ -301,6 +304,37 @@ Fixpoint lookup (k : string) (m : list (string * yv)) : option yv :=
   match m with
   | [] => None
   | (k', v) :: r => if String.eqb k' k then Some v else lookup k r
+  end.
+
+(** ** oauth2.DecodeScopesMatcherHookFunc — the decode hook behind `assertions: {scopes: …}` of a
+    rule-level jwt / oauth2_introspection authenticator config, for the values it handles (lists
+    and maps).  `scopes: [a, b]` or `scopes: {matching_strategy: wildcard, values: [a]}` *)
+Definition is_ystr (v : yv) : bool := match v with YStr _ => true | _ => false end.
+
+Definition scopes_assert (f : fixes) : res unit := if fx9 f then Err else Panic SScopes.
+
+(** createMatcherFromValues: values.([]any), then v.(string) per element *)
+Definition scopes_values (f : fixes) (v : yv) : res unit :=
+  match v with
+  | YList l => if forallb is_ystr l then Ok tt else scopes_assert f
+  | _ => scopes_assert f
+  end.
+
+Definition known_strategy (s : string) : bool :=
+  String.eqb s "exact" || String.eqb s "hierarchic" || String.eqb s "wildcard".
+
+Definition decode_scopes (f : fixes) (v : yv) : res unit :=
+  match v with
+  | YList _ => scopes_values f v
+  | YMapAny => scopes_assert f                      (* k.(string) on a non-string key *)
+  | YMap m =>
+    let vals := match lookup "values" m with Some x => scopes_values f x | None => Err end in
+    match lookup "matching_strategy" m with
+    | Some (YStr s) => if known_strategy s then vals else Err
+    | Some _ => scopes_assert f                     (* name.(string) *)
+    | None => vals
+    end
+  | _ => Ok tt                                      (* not for this hook *)
   end.
 
 (** answer of the mechanism factory (prototype lookup + WithConfig), data of the case *)
